@@ -209,7 +209,7 @@ PROPS["C19"] = {
 PROPS["C11"] = {
     "level": "proof",
     "streams": ["watch", "cache"],
-    "ops": ["events", "history", "bigdir", "permrestore"],
+    "ops": ["events", "history", "bigdir", "slowscan", "permrestore"],
     "timeout": 2400,
     "trusted_base": ["inotify event generation as abstracted by the model's event table (validated against a plain fsnotify watcher on every run): which operations produce an event that passes the watcher's filter",
                      "fsnotify delivers queued events in order and does not overflow its queue for these histories",
